@@ -49,6 +49,7 @@ Definition guard_tbl (f : string) : guard :=
   else if starts "encrypt.Filter." f then GImmutable
   else if String.eqb f "cloudevents.FormatterFilter.Signer" then GLock "cloudevents.FormatterFilter.l"
   else if starts "cloudevents.FormatterFilter." f then GImmutable
+  else if String.eqb f "writer.Sink.Writer*" then GLock "writer.Sink.l"     (* the content of the sink's io.Writer: one Write at a time *)
   else if starts "writer.Sink." f then GImmutable
   else if starts "channel.ChannelSink." f then GImmutable
   (* the payload graph is mutated (reflectively) only after copystructure.Copy made a private copy *)
